@@ -306,6 +306,9 @@ def verify_function(src: Source, reg: Registry, contract: Contract, prefix: str,
     rep.infeasible = eng.infeasible_paths
     rep.inlined = sorted(eng.inlined)
     rep.dropped = sorted(eng.dropped)
+    rep.assumed = dict(getattr(eng, "used_assumed", {}))
+    rep.used_contracts = sorted(getattr(eng, "used_contracts", ()))
+    rep.axioms = [str(a)[:200] for a in getattr(eng.reg, "axioms", ())]
     if solve and rep.error is None:
         # unique names: same clause on several paths gets a path suffix
         seen = {}
